@@ -114,10 +114,30 @@ def fam_chars():
     out = []
     cps = list(range(0, 128)) + [0xE9, 0x301, 0x1F600, 0x7FF, 0xFFFF, 0x10FFFF]
     cps += [(1 << 32) + 65, (1 << 32) + 0xD800, 1 << 33, (1 << 64) + 66, 0xD800, 0xDFFF, 0x110000]
+    special = set(map(ord, '"\\{}%\n\r\t\0 \'$#`')) | {0x1B, 0x7F}
     for cp in cps:
         p = push_value(cp)
         for sink in ('.', '..'):
+            if sink == '..' and cp < 128 and cp not in special and tier_quick[0]:
+                continue        # stderr goes through the same emitted formatting; the full cross product is in the thorough tier
             out.append('%s 항%s 흑 항... 흑... 항.' % (p, sink))
+    return out
+
+
+tier_quick = [True]
+
+
+def fam_prestate_values():
+    """integers at the machine-width boundaries (and thirds of them) sitting on a stack when pre-execution stops:
+    the emitted program has to restore them exactly"""
+    out = []
+    ns = [(1 << 31) - 1, 1 << 31, (1 << 32) - 1, 1 << 32, (1 << 53) + 1, (1 << 63) - 1, 1 << 63, (1 << 63) + 1, 3 ** 40,
+          (1 << 64) - 1, 1 << 64, (1 << 64) + 1, (1 << 127) + 1, 1 << 128]
+    for n in ns:
+        p = push_value(n)
+        out.append('%s 흑 항... 흑... 항. 흣. 항. 흣.' % p)                         # n restored on two stacks, printed via -n
+        out.append('%s 흣... 흑 항... 흑... 항. 항. 항. 항.' % p)                    # -n
+        out.append('%s 형... 흡... 하아앗... 흣... 흑 항... 흑... 항. 항. 항.' % p)   # -n/9
     return out
 
 
@@ -370,6 +390,7 @@ def chunks(seq, n):
 
 
 def run_c03(tier):
+    tier_quick[0] = tier == 'quick'
     st = Stats()
     fams = {}
     if tier == 'quick':
@@ -378,7 +399,7 @@ def run_c03(tier):
         fams['dispatch'] = fam_dispatch()
         fams['general'] = fam_general(2, ['', '항. 항.']) + fam_general(3, [''])[::15]
         fams['resume'] = fam_resume(1) + fam_resume(2)[::14]
-        fams['chars'] = fam_chars()
+        fams['chars'] = fam_chars() + fam_prestate_values()
         fams['labels'] = fam_labels() + fam_bigindex() + fam_highstack() + fam_redundant_hearts()
         fams['labelflow'] = labelflow_family()[::16]
         fams['scale'] = fam_scale(tier)
@@ -389,7 +410,7 @@ def run_c03(tier):
         fams['dispatch'] = fam_dispatch()
         fams['general'] = fam_general(3, ['', '항. 항.']) + fam_general(4, [''])[::4]
         fams['resume'] = fam_resume(2) + fam_resume(3)[::6]
-        fams['chars'] = fam_chars()
+        fams['chars'] = fam_chars() + fam_prestate_values()
         fams['labels'] = fam_labels() + fam_bigindex() + fam_highstack() + fam_redundant_hearts()
         fams['labelflow'] = labelflow_family()
         fams['scale'] = fam_scale(tier)
